@@ -215,8 +215,8 @@ def shrink(ctx, bat, case):
 # ---------------------------------------------------------------------------------------------------
 def property_checks(bat, rng, n):
     """(a) releasing a lock one does not hold has no effect; (b) a lock whose holder's last stamp is t0
-    is obtainable by another client with any stamp > t0+U, and a prolongation with such a stamp drops it;
-    (c) it is NOT obtainable by another client while stamp <= t0+U (needed for exclusion)."""
+    is obtainable by another client with any stamp > t0+U; (c) it is NOT obtainable by another client
+    strictly before the stored lock time + U (two replicas asked at the same instant)."""
     viols, done = [], 0
     for _ in range(n):
         U = rng.choice((0, 1, 3, 10))
@@ -236,27 +236,28 @@ def property_checks(bat, rng, n):
                           "what": "release by a client that does not hold the lock changed the table %s -> %s"
                                   % (before, lc.table_of(impl)),
                           "replay": {"kind": "prop", "U": U, "stamps": stamps}})
-        # stamps within the unlock time of the *stored* lock time must not let another client in
+        # before the auto-unlock time has passed since the *stored* lock time nobody else may get the lock:
+        # checked as the property states it -- two replicas (with / without the competitor's command) asked
+        # at the same instant.  (Exactly at stored+U the property text decides nothing; the model does.)
         stored = before[0][2] if before else None       # None: the holder let its own lock lapse
-        if stored is not None and impl.acquire(lc.lock_name(1), lc.client_name(2), stored + U, _doApply=True) is not False:
-            viols.append({"signature": "batteries._ReplLockManagerImpl.acquire:lock-stolen-before-expiry",
-                          "what": "client 2 acquired lock held by 1 since %d with stamp %d, U=%d" % (stored, stored + U, U),
-                          "replay": {"kind": "prop", "U": U, "stamps": stamps}})
+        if stored is not None and U >= 1:
+            now = stored + U - 1
+            other = bat._ReplLockManagerImpl(U)
+            getattr(other, "_ReplLockManagerImpl__locks").update(getattr(impl, "_ReplLockManagerImpl__locks"))
+            other.acquire(lc.lock_name(1), lc.client_name(2), now, _doApply=True)
+            if impl.isAcquired(lc.lock_name(1), lc.client_name(1), now) and other.isAcquired(lc.lock_name(1), lc.client_name(2), now):
+                viols.append({"signature": "batteries._ReplLockManagerImpl.acquire:lock-stolen-before-expiry",
+                              "what": "lock held by 1 since %d, U=%d: acquire by 2 with stamp %d granted; at time %d the holder's replica "
+                                      "(command not yet applied) and the competitor's replica both answer isAcquired=True"
+                                      % (stored, U, now, now),
+                              "replay": {"kind": "prop", "U": U, "stamps": stamps}})
         d = rng.choice((1, 1, 2, 7))
-        if rng.random() < 0.5:
-            ok = impl.acquire(lc.lock_name(1), lc.client_name(2), t0 + U + d, _doApply=True)
-            if ok is not True or lc.table_of(impl) != [(1, 2, t0 + U + d)]:
-                viols.append({"signature": "batteries._ReplLockManagerImpl.acquire:expired-lock-not-obtainable",
-                              "what": "holder's last stamp %d, U=%d, acquire by another client with stamp %d answered %r, table %s"
-                                      % (t0, U, t0 + U + d, ok, lc.table_of(impl)),
-                              "replay": {"kind": "prop", "U": U, "stamps": stamps}})
-        else:
-            lc.apply_cmd(impl, ("pro", 3, t0 + U + d))
-            if lc.table_of(impl):
-                viols.append({"signature": "batteries._ReplLockManagerImpl.prolongate:expired-lock-not-dropped",
-                              "what": "holder's last stamp %d, U=%d, prolongate with stamp %d left %s"
-                                      % (t0, U, t0 + U + d, lc.table_of(impl)),
-                              "replay": {"kind": "prop", "U": U, "stamps": stamps}})
+        ok = impl.acquire(lc.lock_name(1), lc.client_name(2), t0 + U + d, _doApply=True)
+        if ok is not True or lc.table_of(impl) != [(1, 2, t0 + U + d)]:
+            viols.append({"signature": "batteries._ReplLockManagerImpl.acquire:expired-lock-not-obtainable",
+                          "what": "holder's last stamp %d, U=%d, acquire by another client with stamp %d answered %r, table %s"
+                                  % (t0, U, t0 + U + d, ok, lc.table_of(impl)),
+                          "replay": {"kind": "prop", "U": U, "stamps": stamps}})
     return viols, done
 
 
